@@ -169,7 +169,7 @@ def mps_scenario(task: dict) -> dict:
     for it in range(task["count"]):
         scaled, canonical, dark = task["norm"] == "scaled", task["canonical"], task["dark"]
         d = 2 if dark else int(rng.choice([2, 2, 3]))
-        n = int(rng.integers(3 if dark else 2, task["max_n"] + 1))
+        n = int(rng.integers(3 if dark else 2, (task["max_n"] if d == 2 else min(task["max_n"], 5)) + 1))  # dense reference: 3^5 = 243
         if dark:
             ngood = int(rng.integers(2, n))
             mask = np.ones(n, dtype=bool)
@@ -332,7 +332,7 @@ def sv_scenario(task: dict) -> dict:
             bad = [o for o, vv in ver.items() if vv != "ok"]
             del acc["violations"][before:]
             if bad:
-                acc["violations"].append({"prop": "C13", "key": f"sv:{kind}:unnormalised-initial-state-not-normalised-before-observables", "what":
+                acc["violations"].append({"prop": "C13", "key": "sv:initial-state-not-normalised:observables-scaled-by-norm", "what":
                                           f"emu-sv reports {', '.join(sorted(bad))} of an unnormalised {kind} scaled by its norm / trace (e.g. occupations up to "
                                           f"{float(np.max(np.real(got['occupation']))):.3f}); the definition is on the normalised state", "n": n, "params": rep, "path": []})
         for o, vv in ver.items():
